@@ -15,6 +15,22 @@ pub struct L2Cfg {
     pub bound: Option<u32>,
     pub max_execs: u64,
     pub wall: Duration,
+    /// spurious condition-variable wake-ups are offered (as 1-cost deviations) in the
+    /// passes with a bound up to this value; None = never.  Bodies that want them call
+    /// `ctl::spurious(l2::spurious_now())`.
+    pub spurious_upto: Option<u32>,
+}
+
+static SPURIOUS_NOW: std::sync::atomic::AtomicBool = std::sync::atomic::AtomicBool::new(false);
+
+/// Whether the pass that is being explored (or the schedule being replayed) offers
+/// spurious wake-ups.  Process-global: a worker process explores one scenario at a time.
+pub fn spurious_now() -> bool {
+    SPURIOUS_NOW.load(std::sync::atomic::Ordering::SeqCst)
+}
+
+fn set_spurious(on: bool) {
+    SPURIOUS_NOW.store(on, std::sync::atomic::Ordering::SeqCst);
 }
 
 /// more threads than this parked for ever by one scenario's executions: stop exploring it
@@ -68,6 +84,12 @@ where
     let mut last_example: Option<Value> = None;
     let mut last_distinct = 0u64;
     for b in bounds {
+        let spurious = match (cfg.spurious_upto, b) {
+            (Some(u), Some(b)) => b <= u,
+            (Some(_), None) => true,
+            (None, _) => false,
+        };
+        set_spurious(spurious);
         let ecfg = ExploreCfg {
             mode: cfg.mode,
             bound: b,
@@ -130,7 +152,7 @@ where
         if let Some((spent, nd, depth, end)) = example {
             if b == cfg.bound || cfg.bound.is_none() {
                 last_example = Some(json!({
-                    "scenario": scenario, "mode": mode_name(cfg.mode), "bound": b, "executions_at_this_bound": stats.execs,
+                    "scenario": scenario, "mode": mode_name(cfg.mode), "bound": b, "spurious_wakeups_offered": spurious, "executions_at_this_bound": stats.execs,
                     "example_execution": {"deviations": spent, "decision_points": depth, "ended": end,
                         "non_default_choices": nd.iter().map(|(i, c, n)| json!({"at_decision": i, "alternative": c, "of": n})).collect::<Vec<_>>()},
                 }));
@@ -190,7 +212,7 @@ where
                     acc.violation(
                         &key,
                         format!("{} [schedule with {} deviation(s), {} decision points]", desc, b.map_or("unbounded".to_string(), |x| x.to_string()), res.decisions.len()),
-                        json!({"scenario": scenario, "schedule": schedule_json(&res), "mode": mode_name(cfg.mode), "bound": b}),
+                        json!({"scenario": scenario, "schedule": schedule_json(&res), "mode": mode_name(cfg.mode), "bound": b, "spurious_wakeups_offered": spurious}),
                     );
                 }
             }
@@ -241,6 +263,7 @@ where
     J: Fn(&O, &RunResult) -> Vec<(String, String)>,
 {
     let sched = schedule_from_json(&replay["schedule"]);
+    set_spurious(replay["spurious_wakeups_offered"].as_bool().unwrap_or(false));
     let mut hashes = Vec::new();
     let mut last: Option<(O, RunResult)> = None;
     for _ in 0..2 {
